@@ -1,6 +1,7 @@
 package main
 
 import (
+	"math/big"
 	"bytes"
 	"context"
 	"fmt"
@@ -39,9 +40,31 @@ func (o *Obligation) script() string {
 			used[k] = true
 		}
 	}
+	// constants >= 16 of the obligation (table sizes and the like): an axiom
+	// that pins an uninterpreted function at such a constant (a per-size
+	// definition) is only useful when that constant occurs
+	cmemo := map[*Term]bool{}
+	oconsts := map[string]bool{}
+	for _, h := range o.Hyps {
+		bigConstsOf(h, cmemo, oconsts)
+	}
+	if o.Goal != nil {
+		bigConstsOf(o.Goal, cmemo, oconsts)
+	}
 	for _, a := range o.axioms {
 		if a.IsTrue() {
 			continue
+		}
+		if ks := pinnedConsts(a); len(ks) > 0 {
+			hit := false
+			for _, k := range ks {
+				if oconsts[k] {
+					hit = true
+				}
+			}
+			if !hit {
+				continue
+			}
 		}
 		rel := false
 		nUF := 0
@@ -66,10 +89,19 @@ func (o *Obligation) script() string {
 	if o.Cover {
 		// satisfiability of the preconditions: engine-internal string axioms
 		// (consistent by construction, quantified) are left out
+		qm := map[*Term]bool{}
 		for _, h := range hyps {
-			if h.Op != "forall" {
-				asserts = append(asserts, h)
+			if h.Op == "forall" {
+				continue
 			}
+			if hasQuant(h, qm) {
+				// nested quantified parts are dropped the same way
+				if w, ok := weakenQ(b, h, true, qm); ok {
+					asserts = append(asserts, w)
+				}
+				continue
+			}
+			asserts = append(asserts, h)
 		}
 	} else {
 		ng := b.Not(o.Goal)
@@ -125,6 +157,46 @@ func (o *Obligation) script() string {
 		o.logic = logic
 	}
 	return s
+}
+
+// bigConstsOf collects integer constants >= 16 occurring in t.
+func bigConstsOf(t *Term, memo map[*Term]bool, out map[string]bool) {
+	if memo[t] {
+		return
+	}
+	memo[t] = true
+	if t.Op == "const" && t.Val != nil && (t.Sort.Kind == SInt || t.Sort.Kind == SBV) && t.Val.Cmp(big.NewInt(16)) >= 0 {
+		out[t.Val.String()] = true
+	}
+	for _, a := range t.Args {
+		bigConstsOf(a, memo, out)
+	}
+}
+
+// pinnedConsts: constants >= 16 that are direct arguments of uninterpreted
+// function applications in an axiom.
+func pinnedConsts(a *Term) []string {
+	var out []string
+	seen := map[*Term]bool{}
+	var walk func(t *Term)
+	walk = func(t *Term) {
+		if seen[t] {
+			return
+		}
+		seen[t] = true
+		if t.Op == "app" {
+			for _, x := range t.Args {
+				if x.Op == "const" && x.Val != nil && (x.Sort.Kind == SInt || x.Sort.Kind == SBV) && x.Val.Cmp(big.NewInt(16)) >= 0 {
+					out = append(out, x.Val.String())
+				}
+			}
+		}
+		for _, x := range t.Args {
+			walk(x)
+		}
+	}
+	walk(a)
+	return out
 }
 
 // symbolsOf collects free variables and uninterpreted function names.
@@ -244,7 +316,24 @@ func runOne(ctx context.Context, sd solverDef, file string, to time.Duration) (s
 	_ = cmd.Run()
 	secs = time.Since(t0).Seconds()
 	out = buf.String()
-	first := strings.TrimSpace(strings.SplitN(out, "\n", 2)[0])
+	if os.Getenv("GOVC_SOLVERTRACE") != "" {
+		defer func() {
+			extra := ""
+			if status == "error" {
+				extra = " OUT=" + strings.ReplaceAll(out[:min(len(out), 300)], "\n", " | ")
+			}
+			fmt.Fprintf(os.Stderr, "SOLVER %s %s to=%v -> %s %.2fs%s\n", sd.name, file, to, status, secs, extra)
+		}()
+	}
+	first := ""
+	for _, ln := range strings.Split(out, "\n") {
+		ln = strings.TrimSpace(ln)
+		if ln == "" || strings.HasPrefix(ln, "WARNING") {
+			continue // e.g. z3: a pattern it chose to ignore
+		}
+		first = ln
+		break
+	}
 	switch first {
 	case "sat", "unsat", "unknown":
 		status = first
@@ -442,8 +531,50 @@ func solve1(o *Obligation, cfg *SolverCfg, idx int) {
 	if quick > cfg.Timeout {
 		quick = cfg.Timeout
 	}
-	st, out, secs := runOne(ctx, solvers[0], f1, quick)
-	o.Seconds += secs
+	var st, out string
+	var secs float64
+	var c5 solverDef
+	for _, sd := range solvers {
+		if sd.name == "cvc5" {
+			c5 = sd
+		}
+	}
+	if useCvc5 && c5.name != "" && !cfg.AllAgree && strings.Contains(script, "forall") {
+		// quantified query: z3 and cvc5 side by side with the same short
+		// budget; the first "unsat" wins (cvc5's instantiation often decides
+		// at once what z3 does not)
+		type r1 struct {
+			st, out string
+			secs    float64
+			name    string
+		}
+		ctx1, cancel1 := context.WithCancel(ctx)
+		ch1 := make(chan r1, 3)
+		go func() { a, b, c := runOne(ctx1, solvers[0], f1, quick); ch1 <- r1{a, b, c, solvers[0].name} }()
+		go func() { a, b, c := runOne(ctx1, c5, f2, quick); ch1 <- r1{a, b, c, c5.name} }()
+		go func() { a, b, c := runOne(ctx1, solvers[1], f1, quick); ch1 <- r1{a, b, c, solvers[1].name} }()
+		var zr r1
+		for k := 0; k < 3; k++ {
+			r := <-ch1
+			o.Seconds += r.secs
+			if r.st == "unsat" {
+				cancel1()
+				o.Status, o.Solver, o.Output = r.st, r.name, r.out
+				return
+			}
+			if r.name == solvers[0].name {
+				zr = r
+				if r.st == "sat" {
+					break
+				}
+			}
+		}
+		cancel1()
+		st, out, secs = zr.st, zr.out, 0
+	} else {
+		st, out, secs = runOne(ctx, solvers[0], f1, quick)
+		o.Seconds += secs
+	}
 	if (want(st) && !cfg.AllAgree) || cfg.quickOnly {
 		o.Status, o.Solver, o.Output = st, solvers[0].name, out
 		if st == "sat" {
